@@ -1,10 +1,12 @@
 #!/usr/bin/env python3
 """tools/c19_known.py <evidence/C19.json> <KNOWN_FINDINGS.txt>
-Prints `known:` lines (recorded safe depth = a quarter of the largest depth observed to complete) for every (operation,
+Prints `known:` lines (recorded safe depth = the largest depth observed to complete divided by --div, default 4; --all prints every crashed ladder, not only those without a line) for every (operation,
 construct, stack) ladder of a thorough C19 run on the unchanged tree that crashed and has no line in the findings file yet.
 Existing lines are never rewritten; the output is appended by hand after review (the check itself never writes the file)."""
 import json, sys, re
 ev, kf = sys.argv[1], sys.argv[2]
+ALL = "--all" in sys.argv
+DIV = int(sys.argv[sys.argv.index("--div") + 1]) if "--div" in sys.argv else 4
 def find(o):
     if isinstance(o, dict):
         if 'thresholds' in o:
@@ -17,10 +19,10 @@ def find(o):
 t = find(json.load(open(ev)))
 have = set(re.findall(r'sig=(deep:\S+)', open(kf).read()))
 for sig, v in sorted(t.items()):
-    if not v['first_crash'] or sig in have:
+    if not v['first_crash'] or (sig in have and not ALL):
         continue
     parts = sig.split(':')
     op, construct, stack = parts[1], parts[2], parts[3] + (' (child built with the dev profile)' if len(parts) > 4 else '')
-    safe = v['safe_up_to'] // 4
+    safe = v['safe_up_to'] // DIV
     print(f"known: property=C19 sig={sig} safe<={safe} {op} of a deeply nested `{construct}` expression exhausts a {stack} stack and aborts the process "
           f"(no depth limit anywhere; observed: completes at depth {v['safe_up_to']}, aborts at {v['first_crash']['depth']}); a crash at or below depth {safe} would be reported as new")
